@@ -89,11 +89,11 @@ def run(ctx: Ctx):
     if ctx.quick:
         consts = {"Y0s": {2001}, "Y0Old": {1895}, "Ends": {"open", "count", "until"}}       # 1895: rules anchored before 1900
         fixed = {0, 345, -720}
-        pairs = {(60, 120)}
+        pairs = {(60, 120), (-60, 0)}      # the second pair has its two offsets on opposite sides of UTC (timedelta.days -1 and 0)
     else:
         consts = {"Y0s": {1996, 2001, 2015}, "Y0Old": {1895, 1601}, "Ends": {"open", "count", "until"}}
         fixed = {0, 345, -720, 840, -210}
-        pairs = {(60, 120), (-300, -240), (570, 630), (0, 120)}
+        pairs = {(60, 120), (-300, -240), (570, 630), (0, 120), (-60, 0), (-30, 30)}
     r = ctx.mc("MC_VTimezone", cfg_text(spec="Spec", constants={**consts, "Cross": False},
                                         invariants=["InvUnique", "InvNonEmpty", "InvPytzMirror", "Vec"]),
                defs={"OffPairs": pairs, "Fixed": fixed}, workers=6 if ctx.quick else 14, timeout=6000)
